@@ -17,7 +17,6 @@ UPLOAD_ROUTES = {
     "google": ["google.upload.init_create", "google.upload.init_update", "google.upload.put", "google.files.md5", "google.files.update", "google.files.delete"],
 }
 KINDS = ["http_4xx_json", "http_5xx_json", "http_5xx_text", "malformed_json", "missing_content_type", "reset_before_body", "reset_inside_body", "corrupt", "wrong_checksum"]
-OLD = "2023.11.01-00:00:00"
 
 
 class Scene:
@@ -38,10 +37,11 @@ class Scene:
         la, _ = runs.listing(H.dec)
         self.group = la[-1][0]
         self.backups = la[-1][1]
+        self.old = self.group + "-00:00:00"       # an object the cloud already holds in that group (not stored locally)
         cloud.write_upload_config(sb, self.st, provider)
         self.old_content = b"older encrypted object " * 10
         base = {cloud.CLOUD_ROOT: {"type": "folder"}, cloud.CLOUD_ROOT + "/" + self.group: {"type": "folder"},
-                "%s/%s/%s.tar.gpg" % (cloud.CLOUD_ROOT, self.group, OLD): {"type": "file", "content_hex": self.old_content.hex()}}
+                "%s/%s/%s.tar.gpg" % (cloud.CLOUD_ROOT, self.group, self.old): {"type": "file", "content_hex": self.old_content.hex()}}
         self.init = {"dropbox": base, "yandex": base, "google": base}
         self.local = {}
         for b in self.backups:
@@ -82,7 +82,7 @@ def examine(sc, r, label, faulted):
         return "%s: processes left behind after `vsb upload` ended: %s" % (label, r["leftover"][:2])
     errs = slevel.errors_of(r["out"])
     # pre-existing object untouched
-    oldp = sc.final_path(OLD)
+    oldp = sc.final_path(sc.old)
     if r["blobs"].get(oldp) != [sc.old_content]:
         return "%s: the pre-existing cloud object %s was altered or removed" % (label, oldp)
     missing = []
@@ -104,10 +104,9 @@ def examine(sc, r, label, faulted):
             return "%s: the object under the final name %s is not the local backup (members %s)" % (label, fp, sorted(members))
     if missing and not errs:
         return "%s: backups %s were not uploaded but no error was reported" % (label, missing)
-    if faulted is not None:
-        route = faulted["route"]
-        if route in UPLOAD_ROUTES[sc.provider] and len(missing) > 1:
-            return "%s: one upload was disturbed (%s) but %d backups are missing: the remaining backups were not attempted" % (label, route, len(missing))
+    for b in missing:
+        if ('Uploading "%s"' % os.path.join(sc.st, sc.group, b)) not in r["out"] and faulted is not None and faulted["route"] in UPLOAD_ROUTES[sc.provider]:
+            return "%s: backup %s was never attempted after the upload of another one failed" % (label, b)
     # temp first, rename last: data requests never name a final object
     for q in r["requests"]:
         if q["route"] in ("dropbox.upload_session.finish", "yandex.resources.upload_href", "google.upload.init_create"):
@@ -137,6 +136,9 @@ def dropbox_model_check(ctx, sc, ref, r, fault, label):
         return
     bi, j = which
     kind = fault["fault"]
+    if [q["route"] for q in r["requests"]][:fault["index"] + 1] != [q["route"] for q in ref["requests"]][:fault["index"] + 1]:
+        ctx.count("dropbox.model-skipped-different-prefix")
+        return
     nreq = len(per[bi])
     replies = [0] * (nreq + 1)
     sum_ok = 1
@@ -157,7 +159,9 @@ def dropbox_model_check(ctx, sc, ref, r, fault, label):
     ctx.count("dropbox.model-compared")
     if obs != exp:
         ctx.violation("upload-model", "correspondence dropbox-upload-machine no longer checks: %s: (temporary present, final present, success) = %s, the model says %s"
-                      % (label, obs, exp), {"fault": fault, "backup": b}, failing_input=False)
+                      % (label, obs, exp), {"fault": fault, "backup": b, "model_case": [[min(body, 50)], sum_ok, replies, 0, 0], "model_output": m,
+                                                "requests": [(q["index"], q["route"], q.get("fault")) for q in r["requests"]], "objects": sorted(r["blobs"]),
+                                                "output": r["out"][-700:]}, failing_input=False)
 
 
 def provider_sweep(ctx, rng, provider, budget):
@@ -243,6 +247,7 @@ def provider_sweep(ctx, rng, provider, budget):
         if pr:
             ctx.violation("upload", pr, {"provider": provider, "local_fault": "gpg absent", "output": r["out"][-800:]})
         ctx.traces += 1
+        cloud.kill_agents(sb)
 
 
 def run(ctx):
